@@ -143,6 +143,50 @@ Definition run_verify (which : string) (m pkb r s : bytes) (h : signing_hash) : 
                 | _ => vres (verify_hashbuf FP m pk sg)
                 end)) verdict_spec "-".
 
+(* ---- every way a signature is produced x every verification entry point ----
+   signer: det | msg (PrivateKey::sign_message) | k (aux = nonce; rk = marker of the nonce key, irrelevant) |
+           dig (sign_digest_with_deterministic_k on Hash::sha_256 / sha_256d of the message) | rnd (aux = the model's entropy) *)
+Definition digest_bytes (h : signing_hash) (msg : bytes) : bytes :=
+  match h with SHSha256 => sha_256 msg | SHSha256d => sha_256d msg end.
+Definition is_signer (s : string) : bool :=
+  existsb (String.eqb s) ["det"; "msg"; "k"; "dig"; "rnd"].
+Definition produce (signer : string) (kb : bytes) (c : bool) (msg : bytes) (h : signing_hash) (rk : bool) (aux : bytes)
+  : outcome (privkey * signature * signing_hash) :=
+  do k <- key_of kb c;
+  match signer with
+  | "det" => do sg <- sign_with_deterministic_k FP k msg h rk; Ok (k, sg, h)
+  | "msg" => do sg <- sign_message FP k msg; Ok (k, sg, SHSha256)
+  | "k" => do e <- privkey_from_bytes aux; do sg <- sign_with_k FP k e msg h; Ok (k, sg, h)
+  | "dig" => do sg <- sign_digest_with_deterministic_k FP k (digest_bytes h msg); Ok (k, sg, h)
+  | _ => do sg <- sign_with_random_k FP k msg h rk aux; Ok (k, sg, h)
+  end.
+Definition produce_valid (signer : string) (kb aux : bytes) : bool :=
+  valid_key kb && (if String.eqb signer "k" then valid_key aux else true).
+Definition signed_hash (signer : string) (h : signing_hash) : signing_hash :=
+  if String.eqb signer "msg" then SHSha256 else h.
+
+(* verifier: vd ECDSA::verify_digest | vh ECDSA::verify_hashbuf on the digest of msg2 under hash2 |
+             sm Signature::verify_message | pm PublicKey::verify_message | pv PublicKey::is_valid_message (SHA-256 by definition).
+   Specification: accepted exactly when key, message and hash choice are those of the signature. *)
+Definition is_verifier (s : string) : bool := existsb (String.eqb s) ["vd"; "vh"; "sm"; "pm"; "pv"].
+Definition run_cross (signer : string) (kb : bytes) (c : bool) (msg : bytes) (h : signing_hash) (rk : bool) (aux : bytes)
+           (verifier : string) (kb2 : bytes) (c2 : bool) (msg2 : bytes) (h2 : signing_hash) : string :=
+  let hv := if String.eqb verifier "vd" || String.eqb verifier "vh" then h2 else SHSha256 in
+  out3 (render (do p <- produce signer kb c msg h rk aux;
+                let '(_, sg, _) := p in
+                do k2 <- key_of kb2 c2;
+                let pk2 := to_public_key FP k2 in
+                match verifier with
+                | "vd" => vres (verify_digest FP msg2 pk2 sg h2)
+                | "vh" => vres (verify_hashbuf FP (digest_bytes h2 msg2) pk2 sg)
+                | "pm" => vres (verify_digest FP msg2 pk2 sg SHSha256)
+                | _ => Ok (bit (verify_message FP sg msg2 pk2))
+                end))
+       (if produce_valid signer kb aux && valid_key kb2 then
+          if bytes_eqb kb kb2 && bytes_eqb msg msg2 && Bool.eqb (is_double (signed_hash signer h)) (is_double hv)
+          then "OK:1" else "OK:E~OK:0"
+        else "ERR") "-".
+
 (* specification: the 32-byte big-endian x coordinate of d * Q for a valid key and a valid point encoding, else an error *)
 Definition run_ecdh (kb pkb : bytes) : string :=
   out3 (render (do k <- privkey_from_bytes kb; do pk <- pubkey_from_bytes FP pkb;
@@ -190,6 +234,16 @@ Definition run (op : string) (args : list string) : string :=
       match expand k, flag_of c, expand n, flag_of kc, expand m, hash_of h, flag_of pc with
       | Some kb, Some cb, Some nb, Some kcb, Some mb, Some hh, Some pcb => run_privkey_from_k kb cb nb kcb mb hh pcb
       | _, _, _, _, _, _, _ => "BADARG"
+      end
+  | "ecdsa.cross", [sn; k; c; m; h; rk; aux; vf; k2; c2; m2; h2] =>
+      match expand k, flag_of c, expand m, hash_of h, flag_of rk, expand aux with
+      | Some kb, Some cb, Some mb, Some hh, Some rkb, Some ab =>
+          match expand k2, flag_of c2, expand m2, hash_of h2 with
+          | Some kb2, Some cb2, Some mb2, Some hh2 =>
+              if is_signer sn && is_verifier vf then run_cross sn kb cb mb hh rkb ab vf kb2 cb2 mb2 hh2 else "BADARG"
+          | _, _, _, _ => "BADARG"
+          end
+      | _, _, _, _, _, _ => "BADARG"
       end
   | "ecdsa.verify_der", [m; p; d; h] =>
       match expand m, expand p, expand d, hash_of h with
